@@ -83,6 +83,16 @@ def r_ndarray(c):
                 "PytatoKeyBuilder.update_for_ndarray", f"feeds:{tok}", where,
                 f"the key of a wrapped ndarray does not include {why}: two different "
                 f"arrays get the same persistent key (fed: {fed})")
+    # contents in logical (C) order: the bytes must not depend on the memory layout
+    tb = [x for x in ast.walk(fd) if isinstance(x, ast.Call) and isinstance(x.func, ast.Attribute)
+          and x.func.attr == "tobytes"]
+    c.check(bool(tb) and all(
+        not x.args and all(k.arg == "order" and ast.unparse(k.value) in ("'C'", '"C"')
+                           for k in x.keywords) for x in tb), "R18-NDARRAY",
+            "PytatoKeyBuilder.update_for_ndarray", "contents-in-logical-order", where,
+            "the contents are fed in memory order (tobytes(order=...)): a Fortran-ordered "
+            "copy of an array gets another key than the array, and different arrays with "
+            "the same memory image collide")
     # numpy scalars (constants in scalar expressions): equal bytes do not mean
     # equal values either (np.float32(2) / np.int32(1073741824)); the updater
     # that applies to them -- the key builder's own, or the first one up its
@@ -158,11 +168,19 @@ def r_closure(c):
         n += 1
         if uph is not None:
             own_fields = [f for f in m.fields(k)] if is_dc else []
-            src = ast.unparse(uph[1])
-            missing = [f for f in own_fields if f"self.{f}" not in src]
+            fed = _fed_fields(uph[1])
+            cmp_fields = [f for f in own_fields if not _compare_false(m, k, f)]
+            missing = [f for f in cmp_fields if f not in fed]
             c.check(not missing, "R18-CLOSURE", short(k), "update_persistent_hash-reads-all-fields",
                     m.loc(m.module_of(uph[1]), uph[1]),
-                    f"update_persistent_hash of {short(k)} does not read {missing}")
+                    f"update_persistent_hash of {short(k)} does not feed {missing} into the key")
+            partial = {f: v for f, v in fed.items() if f in cmp_fields and v != "whole"}
+            c.check(not partial, "R18-CLOSURE", short(k),
+                    "update_persistent_hash-feeds-whole-fields",
+                    m.loc(m.module_of(uph[1]), uph[1]),
+                    f"update_persistent_hash of {short(k)} feeds only part of a mapping field "
+                    f"({partial}): entries that differ in the other part (e.g. the same "
+                    "arrays under exchanged names) get the same key")
         elif is_dc or is_enum:
             c.ok("R18-CLOSURE", short(k), "keyed-field-by-field (dataclass)" if is_dc
                  else "keyed as enum member", where)
@@ -188,6 +206,59 @@ def r_closure(c):
         raise AnalysisError(f"annotation closure reached only {n} classes (floor 35)")
 
 
+def _compare_false(m, k, f):
+    ent = m.fields(k).get(f)
+    if not ent:
+        return False
+    defcls = ent[3]
+    for (fname, _ann, _hd, _kw, dnode) in m.classes[defcls].own_fields:
+        if fname == f and dnode is not None:
+            return "compare=False" in ast.unparse(dnode)
+    return False
+
+
+def _fed_fields(fd):
+    """{field: 'whole' | 'values-only' | 'keys-only'} for the fields of self whose
+    value (or part of it) is fed into the key by this updater"""
+    if len(fd.args.args) < 3:
+        return {}
+    selfn, kh, kb = (a.arg for a in fd.args.args[:3])
+    fed_exprs = []
+    for call in ast.walk(fd):
+        if not isinstance(call, ast.Call):
+            continue
+        f = ast.unparse(call.func)
+        if f == f"{kb}.rec" and len(call.args) == 2 and ast.unparse(call.args[0]) == kh:
+            fed_exprs.append(call.args[1])
+        elif f == f"{kh}.update" and call.args:
+            fed_exprs.append(call.args[0])
+    # one level of local aliases
+    alias = {}
+    for a in ast.walk(fd):
+        if isinstance(a, ast.Assign) and len(a.targets) == 1 and isinstance(a.targets[0], ast.Name):
+            alias[a.targets[0].id] = a.value
+    seen = {}
+    work = list(fed_exprs)
+    done = set()
+    while work:
+        e = work.pop()
+        for n in ast.walk(e):
+            if isinstance(n, ast.Name) and n.id in alias and n.id not in done:
+                done.add(n.id)
+                work.append(alias[n.id])
+            if isinstance(n, ast.Attribute) and isinstance(n.value, ast.Name) \
+                    and n.value.id == selfn:
+                par = getattr(n, "_parent", None)
+                how = "whole"
+                if isinstance(par, ast.Attribute) and par.value is n \
+                        and par.attr in ("values", "keys"):
+                    how = f"{par.attr}-only"
+                prev = seen.get(n.attr)
+                if prev is None or how == "whole" or (prev != "whole" and prev != how):
+                    seen[n.attr] = "whole" if (prev and prev != how) else how
+    return seen
+
+
 def r_stable(c):
     m = c.model
     from pta.order import scan
@@ -197,6 +268,28 @@ def r_stable(c):
             continue
         n += 1
         qn = m.qualname(fd).replace("pytato.", "", 1)
+        # a key updater is a pure function of the key: it writes nothing that
+        # outlives the call and is shared between keys (class attributes,
+        # globals): a digest cached there makes the key of one object depend on
+        # which objects were keyed before, i.e. on the process
+        shared = []
+        for x in ast.walk(fd):
+            if isinstance(x, (ast.Global, ast.Nonlocal)):
+                shared.append(x)
+            if isinstance(x, ast.Attribute) and isinstance(x.ctx, ast.Store):
+                base = ast.unparse(x.value)
+                if base.lstrip("_")[:1].isupper() or base in ("cls", "type(self)", "self.__class__") \
+                        or base.startswith("type("):
+                    shared.append(x)
+            if isinstance(x, ast.Call) and ast.unparse(x.func) == "setattr" and x.args \
+                    and (ast.unparse(x.args[0])[:1].isupper()
+                         or ast.unparse(x.args[0]).startswith(("type(", "cls"))):
+                shared.append(x)
+        c.check(not shared, "R18-STABLE", qn, "writes-no-shared-state", m.loc(mi, fd),
+                "the key updater stores into class-level/global state "
+                f"(`{m.frag(shared[0]._parent if shared and hasattr(shared[0], '_parent') else fd, 60)}`): "
+                "what one object contributes to a key then depends on which objects "
+                "were keyed earlier in the process")
         bad = [x for x in ast.walk(fd) if isinstance(x, ast.Call) and isinstance(x.func, ast.Name)
                and x.func.id in ("hash", "id", "repr", "str")]
         c.check(not bad, "R18-STABLE", qn, "no-process-dependent-digest", m.loc(mi, fd),
@@ -214,7 +307,9 @@ def r_stable(c):
     # the stateless reductions key by their type, and ==/hash agree with that
     ci = m.cls("pytato.reductions._StatelessReductionOperation")
     from pta.pat import has as phas
-    c.check(phas(ci.methods["update_persistent_hash"], "$kb.rec($kh, type($s))")
+    uph_ = ci.methods["update_persistent_hash"]
+    c.check(phas(uph_, f"{uph_.args.args[2].arg}.rec({uph_.args.args[1].arg}, "
+                       f"type({uph_.args.args[0].arg}))")
             and phas(ci.methods["__hash__"], "return hash(type($s))")
             and (phas(ci.methods["__eq__"], "return type($s) is type($o)")
                  or phas(ci.methods["__eq__"], "return type($o) is type($s)")), "R18-STABLE",
